@@ -1059,7 +1059,9 @@ def c14(ctx):
             else:
                 r3 = run_full(sc3)
             evals += 1; nontriv += 1
-            if r3.error and not permitted_rejection((r3.error[0], r3.error[1])):
+            covered = pd.Timestamp(w0["Date"].iloc[0]) <= start and pd.Timestamp(w0["Date"].iloc[-1]) >= new_end
+            uncovered_claim = r3.error and r3.error[0] == "ValueError" and ("climate data" in r3.error[1])
+            if r3.error and (not permitted_rejection((r3.error[0], r3.error[1])) or (uncovered_claim and covered)):
                 # (a documented rejection of the longer window — e.g. a further season that cannot mature — is C16's matter)
                 viols.append(V("C14", "extend-raises" + tag, sc, "a run that completes raises when its end date is moved later (covered by the weather table)",
                                new_end=sc3["end"], error=r3.error, calendar_crop=bool(cal)))
